@@ -24,20 +24,24 @@ META = {
     "engine": "hbfs",
     "technique": "explicit-state BFS over call histories of the real virtual-time schedulers, each event judged against a "
     "reference model (stable (due, insertion) queue + clock); heap-canonical state merging",
-    "text": "every history of <=D events from the menu {schedule_absolute(now|now+1|now+2), schedule_relative(0|1|2), schedule() "
-    "x action script {noop, schedule rel 0, schedule rel 1, cancel oldest pending, stop()}, cancel(i), advance_to(now+1|+2), "
-    "advance_by(1|2), sleep(1), start(), stop()} followed by every closing run event is executed on VirtualTimeScheduler, "
-    "TestScheduler and HistoricalScheduler; on every prefix the invocation order, the clock read inside each action, clock "
-    "monotonicity, 'cancelled never run', 'advance_* run exactly the due ones and end at the target' and 'sleep runs nothing' "
-    "are compared with the model; exhaustive within D (plus a narrow-menu search to a larger depth in the thorough tier)",
+    "text": "three exhaustive searches per scheduler class (VirtualTimeScheduler float clock, TestScheduler, HistoricalScheduler "
+    "datetime clock): FULL menu {schedule_absolute(now|now+1|now+2), schedule_relative(0|1|2), schedule()} x action script {noop, "
+    "schedule rel 0, schedule rel 1, cancel the oldest pending, stop()} + cancel(i) + advance_to(now+1|+2) + advance_by(1|2) + "
+    "sleep(1) + start() + stop() to depth D_full; MEDIUM menu (two schedule forms x all scripts, cancel(0|1), start, advance_to, "
+    "advance_by, sleep) to depth D_medium; NARROW menu (6 events: same-instant and later noop, self-rescheduling, cancelling, "
+    "start, advance_to) to depth D_narrow; every state at the depth bound is closed with every run event. On every prefix of "
+    "every history the invocation order, the clock read inside each action (clock and now), clock monotonicity, 'cancelled "
+    "never run', 'advance_* run exactly the due ones and end at the target' and 'sleep/schedule/cancel run nothing' are compared "
+    "with the reference model; exhaustive within the stated depths",
     "note": "trusted: CPython, vf/hbfs.canon (merges only isomorphic heaps), the 60-line reference model in this file. "
     "The clock left by start() is not fixed by the statement (cancelled items still move it): it is only required not to "
     "move backwards and the model re-synchronises to it. stop() called by an action ends the current run after that action "
     "(advance_* still leaves the clock at its target). Zero-length advances are not in the menu (DESIGN.md C28).",
 }
 RULE = (
-    "cases = transitions (state, event) of the BFS: all histories over the event menu up to depth D from the empty scheduler, "
-    "states de-duplicated by canonical heap, plus every run event (start/advance_to/advance_by) applied to every depth-D state; "
+    "cases = transitions (state, event) of the BFS: for each of the three menus (see bounds) all histories up to the menu's depth D "
+    "from the empty scheduler, states de-duplicated by canonical heap, plus every closing run event (start/advance_to/advance_by) "
+    "applied to every depth-D state; "
     "distinct = (scheduler kind, canonical pre-state, event); non-trivial = the event made the scheduler invoke >=2 actions "
     "(the ordering mechanism was exercised); outcome = (event kind, scripts and clock offsets of the invoked actions)"
 )
@@ -253,6 +257,7 @@ class World:
         after = sched.clock
         log = list(c.log)
         c.log.clear()
+        c.invocations = 0  # per-event scratch, not part of the state
         self.last_invoked = len(log)
         self.trace.append((ev, [(a.script, k.off(t)) for (a, t, _) in log], k.off(after)))
         self.last_outcome = (name, tuple((a.script, k.off(t) - k.off(before)) for (a, t, _) in log), k.off(after) - k.off(before))
@@ -454,7 +459,7 @@ class Search:
 
 def bounds(tier):
     # depth of the exhaustive search per menu; every depth-D state is then closed with the menu's run events
-    return {"quick": {"full": 3, "medium": 4, "narrow": 6}, "thorough": {"full": 4, "medium": 5, "narrow": 7}}[tier]
+    return {"quick": {"full": 3, "medium": 4, "narrow": 6}, "thorough": {"full": 4, "medium": 5, "narrow": 8}}[tier]
 
 
 PREFIX = 2
